@@ -1,7 +1,7 @@
 CONSTANTS
   MaxReqs = 4
   Stores = {"cookie", "redis"}
-  DomainCfgs = {"none", "dotted", "two"}
+  DomainCfgs = {"none", "dotted", "two", "backend_ok", "backend_fail"}
   DeleteKey = TRUE
 INIT Init
 NEXT Next
